@@ -185,19 +185,17 @@ def apply_op(bb, op, data, nf):
             kw = {}
             if labels is not None:
                 kw["reinsert_indices"] = list(labels)
-            if op.get("bad_at") is not None:
-                X = [r.copy() for r in rows]
-                X[op["bad_at"]] = np.zeros(nf + 16, dtype=np.uint8)
-                good = op["bad_at"]
-                labs = labels if labels is not None else list(range(start, start + len(rows)))
-                for l, r in zip(labs[:good], op["rows"][:good]):
-                    data[l] = r
-                bb.fit(X, input_is_packed=False, **kw)
-            else:
-                labs = labels if labels is not None else list(range(start, start + len(rows)))
-                for l, r in zip(labs, op["rows"]):
-                    data[l] = r
-                if form == "unpacked-array":
+            # which labels must be held afterwards: all of them after a successful fit; those before the
+            # malformed row when the fit fails on it; none when the fit is refused outright because the
+            # internal nodes were released (documented ValueError until reset())
+            labs = labels if labels is not None else list(range(start, start + len(rows)))
+            good = op.get("bad_at")
+            try:
+                if good is not None:
+                    X = [r.copy() for r in rows]
+                    X[good] = np.zeros(nf + 16, dtype=np.uint8)
+                    bb.fit(X, input_is_packed=False, **kw)
+                elif form == "unpacked-array":
                     bb.fit(np.array(rows, dtype=np.uint8).reshape(len(rows), nf),
                            input_is_packed=False, **kw)
                 elif form == "unpacked-list":
@@ -210,6 +208,13 @@ def apply_op(bb, op, data, nf):
                            n_features=nf, **kw)
                 else:
                     raise AssertionError(form)
+            except Exception as e:
+                if good is not None and "released" not in str(e):
+                    for l, r in zip(labs[:good], op["rows"][:good]):
+                        data[l] = r
+                raise
+            for l, r in zip(labs, op["rows"]):
+                data[l] = r
         elif kind == "refine":
             n = (max(data) + 1) if data else 0
             X = np.zeros((max(n, 1), nf), dtype=np.uint8)
